@@ -361,6 +361,17 @@ func genScalarCall(t *rapid.T, mg *msgGen) *ScalarCase {
 			}
 		}
 	}
+	if rapid.IntRange(0, 4).Draw(t, "longQuoted") == 0 {
+		// a rule list of more than 64 (and 128) bytes that contains a quote: the splitter's
+		// quote-aware path works on it, and its LAST rule decides the visible outcome
+		long := strings.Repeat("long text ", rapid.IntRange(5, 12).Draw(t, "longLen"))
+		last := "noeq=77|last rule " + mg.next(t)
+		if hasM && kind != "bool" {
+			last = genSizeRule(t, m, "lastsz") + "|last " + long
+		}
+		c.Rules = append([]string{"in=('a,b'/ab/1/" + long + ")" + mg.next(t)}, c.Rules...)
+		c.Rules = append(c.Rules, last)
+	}
 	for _, r := range c.Rules {
 		if strings.HasPrefix(r, "re='") {
 			if c.RePats == nil {
